@@ -12,7 +12,7 @@ CHECKS = {
    "Liveness restated as bounded progress: after a seeded hostile history (template edits, holds, node churn, misbehaving kubelet, partial rollouts, old-DaemonSet start state) the actors stop, the cooperative kubelet runs and a fixpoint (one Ready live-template pod per eligible node, nothing else, no further pod/RS writes for three rounds) must be reached within 12+4*N*(1+edits) rounds (canary wait durations are fast-forwarded, Failed-pod back-off emptied by a controller restart: waiting is not progress). A second engine (schedule E) replaces the round-robin by the repository's own watch handlers and a recording work queue: after one initial enqueue only watch events, requeues and error retries trigger reconciles, and the fixpoint must be reached by a virtual deadline.",
    T+"an unbounded 'eventually' is not decidable by observation; canaries whose replicas cannot be satisfied by the valid nodes are excluded (premise), counted in evidence.", "4/C02"),
  "C03": ("exploration", "differential oracle over real ManageDeployment outputs (exhaustive small multisets, repeated for map order) + budget monitor on every active-role sync of the simulator",
-   "Every multiset of the seven node classes for N<=4 (quick) / N<=5 (thorough) and seeded multisets up to N=12, times the maxUnavailable/maxPodSchedulerFailure lattice, each executed 12/24 times through the real ManageDeployment at a virtual instant; budget, cap and unavailable-first judged by an independent oracle.",
+   "Every multiset of the seven node classes for N<=4 (quick) / N<=5 (thorough) and seeded multisets up to N=12, times the maxUnavailable/maxPodSchedulerFailure lattice, each executed 12/24 times through the real ManageDeployment at a virtual instant, in half of the cases with selector-matched nodes the daemonset does not target; budget, cap and unavailable-first judged by an independent oracle. Two simulator engines (schedules S and N) judge budget and cap on every real active-role sync of rolling-update-heavy histories with tainted and canary-reserved nodes.",
    T+"the oracle's reading of 'available' (Ready) and of the stuck-node tolerance; map-order coverage is sampled by repetition.", "4/C03"),
  "C04": ("exploration", "runtime monitors over invocation records during generated canary histories",
    "Canary-heavy seeded histories (second template change during a canary, replicas as number/percent, node churn, pause/unpause/fail/validate commands, all reconcile orders): every pod create by a non-active up-to-date replica set must target a node of status.canary.nodes as read; the active replica set must not create/delete on canary nodes; canary list growth bounded by the resolved replicas; canary label present on canary pods while the canary runs and gone at the post-promotion fixpoint; a steady-state phase (manual validation) checks that canary nodes run the new template, every other eligible node keeps a Ready pod of the active template, and nothing of the new template leaks outside status.canary.nodes; schedule N nests other reconciles inside a running one.",
@@ -20,7 +20,7 @@ CHECKS = {
  "C05": ("exploration", "exhaustive lattice (12960 prepared stores, one real EDS Reconcile each at an exact virtual instant) + promotion monitor on every EDS reconcile of the simulator",
    "The full product of the quantifier (strategy x age vs duration x noRestartsDuration x last restart x pause source x unpause x canary-valid x failed x active present) is enumerated; a switch of status.activeReplicaSet is judged against promotionAllowed (must / must-not / either at the stated equalities).",
    T+"the equality points (age = duration, since-restart = noRestartsDuration) are not judged.", "4/C05"),
- "C06": ("exploration", "differential oracle (canaryVerdict) over the real manageCanaryStatus via verif shim; second call for stickiness",
+ "C06": ("exploration", "differential oracle (canaryVerdict) over the real manageCanaryStatus via verif shim; second call for stickiness; failed-canary-creates-nothing monitor on real canary syncs of the simulator",
    "200k (quick) / 2.4M (thorough) seeded canary situations, boundary-complete per dimension (restart counts at/around both thresholds, all 11 cannot-start reasons, ContainerCreating, unrelated reasons, start age before/at/after maxSlowStartDuration, spans and ages at/around their limits, enabled flags, previous conditions, annotations).",
    T+"Paused is don't-care once failed ('otherwise' in the statement).", "4/C06"),
  "C07": ("exploration", "runtime monitors on EDS reconciles that read a Canary-Failed replica set + rollback fixpoint and retention phase; fault points are covered by C11's failure-and-rollback scenario",
@@ -32,7 +32,7 @@ CHECKS = {
  "C09": ("exploration", "differential oracle (rampBound) over calculateMaxCreation via shim and over ManageDeployment's create decisions + spacing monitor in the simulator",
    "Product of elapsed x interval x additive increase x maxParallelPodCreation x nodes at exact instants; creates of a sync bounded by rampBound measured from the Active condition of the status it was given; spacing of acting syncs >= reconcileFrequency-1s and at most maxUnavailable update deletions per sync judged on every simulated history (incl. failing pod calls and bursts of reconciles).",
    T+"non-positive intervals belong to C16.", "4/C09"),
- "C10": ("exploration", "differential oracle over CreatePodFromDaemonSetReplicaSet + compareCurrentPodWithNewPod round trip and single perturbations",
+ "C10": ("exploration", "differential oracle over CreatePodFromDaemonSetReplicaSet + compareCurrentPodWithNewPod round trip and single perturbations; input replica set compared with a deep copy after every call; label/namespace monitor on every pod created by real syncs of the simulator",
    "20k (quick) / 200k (thorough) seeded (template, node, setting, mode) tuples: pinning in every affinity term, owner, labels, hash, default tolerations, resources precedence, wire round trip judged up to date, every single perturbation judged outdated.",
    T+"a malformed annotation is expected to fall through to setting/template; its being reported is not part of the statement.", "4/C10"),
  "C11": ("fault_enumeration", "fault injection at the client seam: every API call index x {reject, lost reply, stop before, stop after}; safety monitors at every step, final abstract state compared with the failure-free run",
@@ -47,12 +47,12 @@ CHECKS = {
  "C14": ("exploration", "differential oracle (expectedEDSStatus) on prepared stores + on every EDS status write of the simulator + counts at fixpoints",
    "16k prepared stores (up to three replica sets, roles, conditions, annotations) and every simulated EDS status write compared with the documented status function; 0<=available<=ready<=current<=desired on active/canary RS status writes; at quiescence desired/current/ready/available/upToDate equal the counts over nodes and pods.",
    T+"status.reason is judged only where the documented function determines it (reset when the canary is neither paused nor failed).", "4/C14"),
- "C15": ("exploration", "differential oracle over canary node selection through the real EDS Reconcile, with node churn and a second Reconcile",
+ "C15": ("exploration", "differential oracle over canary node selection through the real EDS Reconcile, with node churn and a second Reconcile; distinctness monitor on every canary status written in simulated histories with heavy node churn",
    "9.6k (quick) / 96k (thorough) seeded node populations x replicas (int, percent) x selector x anti-affinity keys x previous lists; distinct, valid, stable, count max/min, error only when too few valid nodes, least-restarts preference, spreading.",
    T+"one open known finding (stale canary nodes) is listed in known_findings.json.", "4/C15"),
- "C16": ("exploration", "exhaustive product lattices through Default/IsDefaulted/Validate + seeded specs driven through all reconcilers; worker-process crash attribution",
+ "C16": ("exploration", "exhaustive product lattices through Default/IsDefaulted/Validate + seeded specs driven through all reconcilers; worker-process crash attribution; thorough tier adds Go native coverage-guided fuzzing of a byte-encoded strategy under the same oracles",
    "127k lattice points (full product of the canary key fields and of the rolling-update fields) and 600 (quick) / 6000 (thorough) life-cycle scenarios (deploy, template change, canary, promotion) with hostile specs; any panic, non-idempotence, lost user value or accepted-but-must-reject spec is a violation.",
-   T+"coverage-guided fuzzing of the serialized spec was planned for the thorough tier and is not built (see DESIGN.md 9).", "4/C16"),
+   T+"the fuzzing engine (thorough tier, 400000 executions) uses the Go fuzzer's own unseedable random source, so that part is not a function of VERIF_SEED; a failing input is stored in the replay file.", "4/C16"),
  "C17": ("exploration", "Go race detector (-race build, halt_on_error=0, report blocks counted and de-duplicated) + conservation-of-errors monitor with unique error ids + condition reflection on real syncs",
    "Helper batches 2..64 x failure plans with jitter at the client seam; real replica-set syncs (active and canary role) with failing pod calls; the four reconcilers, kubelet and user concurrently on one store with 0/10/100% failing pod calls.",
    T+"the Go race detector only sees the interleavings that occur.", "4/C17"),
@@ -63,7 +63,7 @@ CHECKS = {
    "Eight reachable states x command sequences of length <=3 (all 584 per state in thorough) x optional template edit: documented change only, refusal without change when the precondition fails, pause -> Canary Paused, unpause -> Canary, validate promotes exactly the then-canary RS, fail -> rollback.",
    T+"commands run through their run() bodies with an injected client (kubeconfig handling is not exercised).", "4/C19"),
  "C20": ("exploration", "differential oracle over every metric family generator (verif shim) and BuildInfoLabels",
-   "12k (quick) / 120k (thorough) seeded objects: every gauge equals its status field; the label-info series equals the multiset {(sanitise(key), value)} incl. dotted/slashed/dashed, colliding and empty maps.",
+   "12k (quick) / 120k (thorough) seeded objects: every gauge equals its status field; the label-info series equals the multiset {(sanitise(key), value)} incl. dotted/slashed/dashed, colliding and empty maps; as in the metrics store, all families of an object are generated before any series is judged, and the series are judged again after the families of another object were generated.",
    T+"the sanitising rule is re-stated as [^a-zA-Z0-9_] -> _.", "4/C20"),
 }
 PENDING = {}
